@@ -43,7 +43,7 @@ TOLERATED = {"__new__", "__annotations__"}
 
 def GATES(tier):
     return [("decorations_judged", 300), ("occupied_variants", 200), ("names_identity_checked", 2000), ("user_member_behaviour_checked", 200), ("private_cases", 2), ("collision_cases", 3),
-            ("mode:annotations", 20), ("mode:attrs", 10), ("mode:attrs_typed", 10), ("mode:attrs_skip", 10), ("subclass_cases", 10)] + [(f"occupant:{o}", 20) for o in OCCUPANTS]
+            ("mode:annotations", 20), ("mode:attrs", 10), ("mode:attrs_typed", 10), ("mode:attrs_skip", 10), ("subclass_cases", 10), ("super_delegation_cases", 4)] + [(f"occupant:{o}", 20) for o in OCCUPANTS]
 
 
 def helper_names(attrs):
@@ -295,6 +295,87 @@ class T:
                 problems.append(f"with_{plural}_item raised {type(e).__name__}: {e}")
         if problems:
             ctx.violation("singular_collision_fallback", f"child/children + num/nums (lazy={lazy}): {problems}", features={"case": "collision_fallback", "lazy": lazy}, case=["collision", lazy])
+    # a subclass overrides a helper generated for its parent and delegates to it through super(): the override must survive use
+    src4 = HEAD + '''
+@spec_class(bootstrap=BOOT)
+class Base:
+    x: int = 1
+    nums: List[int] = []
+
+@spec_class(bootstrap=BOOT)
+class T(Base):
+    y: int = 0
+    def with_x(self, v, **kw):
+        return super().with_x(v + 100, **kw)
+    def with_num(self, v, **kw):
+        return super().with_num(v + 100, **kw)
+    def update(self, *a, **kw):
+        return super().update(*a, **kw).with_y(7)
+
+class U(Base):
+    def with_x(self, v, **kw):
+        return super().with_x(v + 100, **kw)
+'''
+    for boot in (True, False):
+        for cname in ("T", "U"):
+            ctx.count("super_delegation_cases")
+            ns = cg.exec_module(src4.replace("BOOT", str(boot)), prefix="verif_c16s").__dict__
+            cls = ns[cname]
+            user = {n: cls.__dict__[n] for n in ("with_x", "with_num", "update") if n in cls.__dict__}
+            inst = cls()
+            problems = []
+            for rnd in (1, 2, 3):
+                if inst.with_x(1).x != 101:
+                    problems.append(f"call #{rnd} of the user's with_x gave x={inst.with_x(1).x}, expected 101")
+                if cname == "T":
+                    if inst.with_num(1).nums != [101]:
+                        problems.append(f"call #{rnd} of the user's with_num gave {inst.with_num(1).nums}, expected [101]")
+                    r = inst.update(x=3)
+                    if (r.x, r.y) != (3, 7):
+                        problems.append(f"call #{rnd} of the user's update gave x={r.x}, y={r.y}, expected 3, 7")
+                for n, f in user.items():
+                    if cls.__dict__.get(n) is not f:
+                        problems.append(f"after {rnd} call(s) {cname}.__dict__[{n!r}] is no longer the user's function")
+                if problems:
+                    break
+            if problems:
+                ctx.violation("user_member_kept", f"{cname}(Base) overriding parent helpers and delegating through super() (bootstrap={boot}): {problems[:3]}", features={"case": "super_delegation", "cls": cname, "lazy": not boot}, case=["super", cname, boot])
+    # a child's new scalar attribute collides with the singular of a collection inherited from the parent: the parent must stay as documented
+    src5 = HEAD + '''
+@spec_class(bootstrap=BOOT)
+class Base:
+    values: List[int] = []
+
+@spec_class(bootstrap=BOOT)
+class T(Base):
+    value: int = 0
+'''
+    for boot in (True, False):
+        for first in ("parent_first", "child_first"):
+            ctx.count("collision_cases")
+            ns = cg.exec_module(src5.replace("BOOT", str(boot)), prefix="verif_c16p").__dict__
+            Base, T = ns["Base"], ns["T"]
+            try:
+                if first == "parent_first":
+                    Base().with_value(1)
+                t = T()
+                b = Base()
+                problems = []
+                extra = sorted(n for n in Base.__dict__ if n.endswith("_values_item"))
+                if extra:
+                    problems.append(f"bootstrapping the child added {extra} to the parent")
+                if b.with_value(3).values != [3] or b.with_value(3).without_value(3, _by_index=False).values != []:
+                    problems.append("the parent's element helper with_value no longer appends to values")
+                if t.with_value(4).value != 4:
+                    problems.append(f"the child's scalar helper with_value gave value={t.with_value(4).value}")
+                if not hasattr(T, "with_values_item") or t.with_values_item(5).values != [5]:
+                    problems.append("the child has no with_values_item element helper for the inherited collection (its with_value is now the scalar helper, shadowing the inherited element helper)")
+            except RuntimeError:
+                problems = []  # refusing the combination is the documented alternative
+            except Exception as e:
+                problems = [f"{type(e).__name__}: {e}"]
+            if problems:
+                ctx.violation("singular_collision_fallback", f"inherited values + own value (bootstrap={boot}, {first}): {problems}", features={"case": "collision_child_scalar", "lazy": not boot, "order": first}, case=["collision4", boot, first])
     # collision with an attribute inherited from a parent spec class
     src3 = HEAD + '''
 @spec_class(bootstrap=True)
